@@ -295,7 +295,9 @@ pub fn gen_named(rng: &mut Rng) -> String {
         let mut v = Vec::new();
         for _ in 0..k {
             let n = rng.pick(CAL_NAMES).to_string();
-            let n = match rng.below(4) {
+            let n = match rng.below(5) {
+                // the Kelvin sign lower-cases to 'k'
+                4 if n.contains('k') => n.replace('k', "\u{212A}"),
                 0 => n.to_uppercase(),
                 1 => {
                     let mut c = n.chars();
